@@ -302,12 +302,26 @@ fn hoist_iter<'a>(v: &'a [StreamFilter]) -> (r: Vec<&'a StreamFilter>)
 fn hoist_iter_rev<'a>(v: &'a [StreamFilter]) -> (r: Vec<&'a StreamFilter>)
     ensures r@.len() == v@.len(), forall|k: int| 0 <= k < v@.len() ==> *#[trigger] r@[k] == v@[v@.len() - 1 - k]
 { v.iter().rev().collect() }
-// R6: `xs.into_iter().flatten().map(Some).collect()` (not in the source; a shape the pairing must not take): the
-// present entries in order, i.e. the list with its null placeholders dropped
-pub open spec fn drop_nulls(v: Seq<Option<Dictionary>>) -> Seq<Option<Dictionary>> { v.filter(|x: Option<Dictionary>| x is Some) }
-#[verifier::external_body]
-fn hoist_flatten(v: Vec<Option<Dictionary>>) -> (r: Vec<Option<Dictionary>>) ensures r@ == drop_nulls(v@)
-{ v.into_iter().flatten().map(Some).collect() }
+// R6: `EXPR.into_iter().flatten()[.map(Some)].collect()` on a list of optional entries (not in the source; a shape the pairing
+// must not take): env model with the std meaning -- the present entries in order, i.e. the list with its null placeholders dropped
+pub open spec fn somes<T>(v: Seq<Option<T>>) -> Seq<T> { v.filter(|x: Option<T>| x is Some).map_values(|x: Option<T>| x.unwrap()) }
+pub struct SeqIter<A> { pub items: Vec<A> }
+impl<A> SeqIter<A> {
+    #[verifier::external_body]
+    pub fn collect(self) -> (r: Vec<A>) ensures r@ == self.items@ { self.items.into_iter().collect() }
+    #[verifier::external_body]
+    pub fn map_some__(self) -> (r: SeqIter<Option<A>>) ensures r.items@ == self.items@.map_values(|x: A| Some(x))
+    { SeqIter { items: self.items.into_iter().map(Some).collect() } }
+}
+pub trait FlattenExt<T>: Sized {
+    spec fn opt_items(&self) -> Seq<Option<T>>;
+    fn into_iter_flatten__(self) -> (r: SeqIter<T>) ensures r.items@ == somes(self.opt_items());
+}
+impl<T> FlattenExt<T> for Vec<Option<T>> {
+    open spec fn opt_items(&self) -> Seq<Option<T>> { self@ }
+    #[verifier::external_body]
+    fn into_iter_flatten__(self) -> (r: SeqIter<T>) { SeqIter { items: self.into_iter().flatten().collect() } }
+}
 
 // R7: std conversions without a vstd specification
 #[verifier::external_body]
